@@ -246,7 +246,7 @@ def obligations(tier):
 
 
 MANIFEST = {
-    'text': 'Bounded model checking, for every distinct pattern word that occurs in the Token::Match patterns of lib/*.cpp (collected at run time by running tools/matchcompiler.py as the build does), of the generated single-word matcher against the interpreter Token::Match (real lib/token.cpp) on one fabricated token whose text, token type and varId are symbolic within the stated set. Per-word lemma; word sequencing is outside.',
-    'note': 'Trusted: clang-14, ll2c.py (validated natively each run), the literal=>token-type invariant table of the match compiler, CBMC 6.11 + MiniSat. Quick tier: a rotating third of the %cmd% words + a rotating 1/24 of the literal words; thorough: all words.',
+    'text': 'Bounded model checking, for every distinct pattern word that occurs in the Token::Match patterns of lib/*.cpp (collected at run time by running tools/matchcompiler.py as the build does), of the generated single-word matcher against the interpreter Token::Match (real lib/token.cpp) on one fabricated token whose text, token type and varId are symbolic within the stated set. Keyword entries of the match compiler type table are assumed only when the real keyword sets of lib/keywords.cpp back them. Per-word lemma; word sequencing is outside.',
+    'note': 'Trusted: clang-14, ll2c.py (validated natively each run), the literal=>token-type invariant table of the match compiler, CBMC 6.11 + MiniSat. Quick tier: a rotating third of the %cmd% words + a rotating 1/24 of the literal words + every word (<= 8 alternatives) with a keyword entry the tokenizer does not back; thorough: all words.',
     'engine': 'E1 ir2c + CBMC (generated wrapper)',
 }
